@@ -32,7 +32,10 @@ MANIFEST = {
             "modules of the repository go, per feature set, through: YANG print -> fresh context -> accepted, identical compiled "
             "print, identical second YANG and YIN print; YIN print -> fresh context -> accepted, identical compiled and YIN "
             "print, YANG print equal as a token sequence; submodule prints likewise; the only imported (parsed, not compiled) "
-            "module likewise; compiled and tree prints identical when printed twice and from two contexts.",
+            "module likewise; compiled and tree prints identical when printed twice and from two contexts; a digest of the "
+            "compiled structures written by the driver itself (presence and other flags, defaults, units, descriptions, must / "
+            "when, types with restrictions, extension instances; absent and empty told apart) identical after both round "
+            "trips; the statements of the generated source equal the statements of the first YANG print.",
     "note": "Modelled C: ypr_encode, ypr_text, ypr_text_squote_line, read_qstring via get_argument, buf_store_char. Statement-level "
             "printers (printer_yang.c/printer_yin.c bodies, extension instances) and the YIN parser are only reached by the "
             "oracles. The module generator does not write the constructs of the findings listed in known_findings.d/ymod.json "
